@@ -445,6 +445,8 @@ symbol_t* value, ArbitrationState* arbitrationState) {
             *arbitrationState = as_timeout;
             m_arbitrationMaster = SYN;
             m_arbitrationCheck = 0;
+            symbol_t cancel[2] = makeEnhancedSequence(ENH_REQ_START, SYN);
+            m_transport->write(cancel, 2);  // cancel the request in the device as well
           }
         }
         valueSet = true;
